@@ -412,6 +412,36 @@ theorem platform_acquire_reaches_target :
   exact ⟨Priv.C04.acquire_log_is_treePath hd htree ⟨⟨ofStr cur.name, none, log⟩, cache, tick⟩ rfl hm ht hres,
     Priv.C04.acquire_lines_are_path_commands hd _ _ _ (Priv.treePath_simple htree hm ht).1⟩
 
+/-- `platform_acquire_device_need_not_ask`: the same for a device that does NOT ask for the
+password although the client has a secondary secret configured (no enable secret set on the
+device): every level, the authenticated ones included, is reached along the tree path, and the
+secret is never sent (every hop of `expectedLog` in the no-ask scenario is one line: the
+deescalate or escalate command alone). -/
+theorem platform_acquire_device_need_not_ask :
+    ∀ l ∈ loaded, isNetwork l.d = true → exemptTag c04Exempt l = none →
+    ∀ (secret : Bytes) (orc : Nat → Priv.Orders), (∀ t, (orc t).Valid) →
+    ∀ cur ∈ l.d.levels, ∀ tgt ∈ l.d.levels,
+    ∀ (cache : Bytes) (log : List (Bytes × Bytes)) (tick : Nat),
+      Priv.Resolves (toCfgNoAsk l.d secret orc) cache (ofStr tgt.name) (ofStr cur.name) →
+      Priv.acquirePriv (toCfgNoAsk l.d secret orc) (ofStr tgt.name) ⟨⟨ofStr cur.name, none, log⟩, cache, tick⟩ =
+        (none, ⟨⟨ofStr tgt.name, none, log ++ Priv.expectedLog (toCfgNoAsk l.d secret orc)
+                    (Priv.treePath (toCfgNoAsk l.d secret orc).L (ofStr cur.name) (ofStr tgt.name))⟩,
+                ofStr tgt.name,
+                tick + (Priv.treePath (toCfgNoAsk l.d secret orc).L (ofStr cur.name) (ofStr tgt.name)).length⟩)
+      ∧ ∀ a b : Bytes, (Priv.stepEntries (toCfgNoAsk l.d secret orc) a b).length = 1 := by
+  intro l hl hn hex secret orc ho cur hcur tgt htgt cache log tick hres
+  obtain ⟨hd, htree⟩ := dom_toCfgNoAsk l.d (c04_checks_hold l hl hn hex) secret orc ho
+  have hm : ofStr cur.name ∈ Priv.names (toCfgNoAsk l.d secret orc).L :=
+    mem_names_toCfg (secret := secret) (orc := orc) hcur
+  have ht : ofStr tgt.name ∈ Priv.names (toCfgNoAsk l.d secret orc).L :=
+    mem_names_toCfg (secret := secret) (orc := orc) htgt
+  refine ⟨Priv.C04.acquire_log_is_treePath hd htree ⟨⟨ofStr cur.name, none, log⟩, cache, tick⟩ rfl hm ht hres, ?_⟩
+  intro a b
+  unfold Priv.stepEntries
+  split
+  · rfl
+  · simp [toCfgNoAsk]
+
 /-- from a level whose prompt no other level accepts, whatever the cache holds -/
 theorem platform_acquire_from_unambiguous :
     ∀ l ∈ loaded, isNetwork l.d = true → exemptTag c04Exempt l = none →
